@@ -210,7 +210,8 @@ FamOps(f) ==
     [] f = "manputbad" -> FManPutBad
     [] f = "manputdig" -> {o \in FManPut : o.ref.k = "dig"}
     \* (GC scenarios only) the blob of an indexed manifest is deleted through the blob API: an index entry without content
-    [] f = "blobdelman" -> {o \in OpsBlobDel : o.dig \in DOMAIN man[o.repo] /\ o.dig \in blob[o.repo] /\ ~IsArt(o.dig)}
+    \* (G2: not the blob of an index whose children would be orphaned when the collection prunes its entry: finding child-orphan)
+    [] f = "blobdelman" -> {o \in OpsBlobDel : o.dig \in DOMAIN man[o.repo] /\ o.dig \in blob[o.repo] /\ ~IsArt(o.dig) /\ G2(o.repo, o.dig)}
     [] f = "manputmiss" -> FManPutMissing
     [] f = "mandel"   -> FManDel
     [] f = "mandelmiss" -> FManDelMiss
